@@ -46,11 +46,14 @@ func ruleGroupSpawn(c *Ctx, r *R) {
 	}
 	// Typestate over spawn and the in-package helpers it is built from (stopped(), register(), …):
 	//   LCK  g.m is held (R or W)              ERRL the last g.ctx.Err() was evaluated during the current hold
-	//   CHK  g.ctx.Err() == nil is established and g.m was not released since        ADD  wg.Add(1) ran
+	//   OK / NOK  the outcome of the `g.ctx.Err() == nil` test on that evaluation is known to be true / false on this path
+	//             (kept across the unlock so that a second branch on the same boolean is correlated with the first)
+	//   ADD  wg.Add(1) ran
 	const (
 		gLCK = 1 << iota
 		gERRL
-		gCHK
+		gOK
+		gNOK
 		gADD
 	)
 	muFields := fieldsOfKind(c, "xsync", "Group", func(t types.Type) bool {
@@ -77,7 +80,7 @@ func ruleGroupSpawn(c *Ctx, r *R) {
 		return nil
 	}
 	pkg := sp.Pkg
-	spf := &PF{N: 16, DeepVisit: true, InScope: func(f *ssa.Function) bool {
+	spf := &PF{N: 32, DeepVisit: true, InScope: func(f *ssa.Function) bool {
 		return rootFn(f).Pkg == pkg && f.Blocks != nil && f != sp && f.Parent() == nil
 	}}
 	spf.Instr = func(f *ssa.Function, in ssa.Instruction, q int) (StateSet, bool) {
@@ -86,6 +89,7 @@ func ruleGroupSpawn(c *Ctx, r *R) {
 		case *ssa.Call:
 			cc = &x.Call
 			if isCtxErr(x) {
+				q &^= gOK | gNOK
 				if q&gLCK != 0 {
 					return ss(q | gERRL), true
 				}
@@ -103,7 +107,7 @@ func ruleGroupSpawn(c *Ctx, r *R) {
 				case "Lock", "RLock":
 					return ss(q | gLCK), true
 				default:
-					return ss(q &^ (gLCK | gERRL | gCHK)), true
+					return ss(q &^ (gLCK | gERRL)), true
 				}
 			}
 		}
@@ -111,17 +115,26 @@ func ruleGroupSpawn(c *Ctx, r *R) {
 	}
 	spf.Edge = func(f *ssa.Function, g guard, q int) (StateSet, bool) {
 		cf, ok := g.asCmp()
-		if !ok || cf.op != token.EQL {
+		if !ok || (cf.op != token.EQL && cf.op != token.NEQ) {
 			return 0, false
 		}
 		x, y := cf.x, cf.y
 		if isNilConst(x) {
 			x, y = y, x
 		}
-		if isNilConst(y) && isCtxErr(x) && q&gERRL != 0 && q&gLCK != 0 {
-			return ss(q | gCHK), true
+		if !isNilConst(y) || !isCtxErr(x) {
+			return 0, false
 		}
-		return 0, false
+		if cf.op == token.EQL {
+			if q&gNOK != 0 {
+				return 0, true // this path already took the "stopped" side of the same test
+			}
+			return ss(q | gOK), true
+		}
+		if q&gOK != 0 {
+			return 0, true
+		}
+		return ss(q | gNOK), true
 	}
 	var add *ssa.Call
 	var goIn *ssa.Go
@@ -137,7 +150,7 @@ func ruleGroupSpawn(c *Ctx, r *R) {
 				if q&gLCK == 0 {
 					addOK = false
 				}
-				if q&gCHK == 0 {
+				if q&gOK == 0 || q&gERRL == 0 {
 					chkOK = false
 				}
 			})
